@@ -41,7 +41,7 @@ Require Import Loc LocProofs.
 (* the source location named in a diagnostic (str_location, Model/Loc.v, compared with the function of /repo on every run): the rendering is
    file:line:column followed by the part of the end position from the first differing component on, and begin and end can be read back from it -
    two different locations are never rendered alike *)
-Theorem C11_location_has_the_documented_shape : forall b e : pos, str_location b e = shape b e.
+Theorem C11_location_has_the_documented_shape : forall b e : pos, str_location b e = loc_shape b e.
 Proof. exact str_location_shape. Qed.
 Theorem C11_location_is_named_faithfully : forall b e : pos, read_back (str_location b e) = Some (b, e).
 Proof. exact str_location_faithful. Qed.
